@@ -904,7 +904,13 @@ func (c *Client) traces(ctx context.Context, url string, bm blockmap, start, lim
 		if len(res.Result) == 0 {
 			return fmt.Errorf("no rpc error but empty result")
 		}
-		block, ok := bm[res.Result[0].BlockNum]
+		for j := range res.Result {
+			if got := res.Result[j].BlockNum; got != start+i {
+				const tag = "trace_block: trace of block %d in the response for block %d"
+				return fmt.Errorf(tag, got, start+i)
+			}
+		}
+		block, ok := bm[start+i]
 		if !ok {
 			return fmt.Errorf("missing block in block map")
 		}
